@@ -65,6 +65,14 @@ def chooseObsLegacy (dropna nanIn : Bool) (rows : List (Row ι ο τ ν)) (obser
 def chooseObs (rows : List (Row ι ο τ ν)) (observable : Option ο) : Except PErr (Option ο) :=
   chooseObsLegacy true true rows observable
 
+/-- the slip `observable = observable or biom_types[0]`: a label that Python counts as false
+    (`0`, `0.0`, `''`) is treated like "no observable given"; `falsy` says which labels those are -/
+def chooseObsTruthy (falsy : ο → Bool) (rows : List (Row ι ο τ ν)) (observable : Option ο) :
+    Except PErr (Option ο) :=
+  chooseObs rows (match observable with
+    | some o => if falsy o then none else some o
+    | none => none)
+
 /-- `data[data[obs_key] == observable]` -/
 def maskObs (rows : List (Row ι ο τ ν)) (o : Option ο) : List (Row ι ο τ ν) :=
   rows.filter (fun r => eqM r.obs o)
